@@ -41,7 +41,7 @@ def generate(seed, tier):
     for i in range(NCASES[tier]):
         cs = K.harness_seed(seed, ID, i)
         rng = random.Random(cs)
-        profile = rng.choice(["guarded", "guarded", "guarded", "nested", "multiassign", "multiassign", "discrete", "mixed", "symbolic"])
+        profile = rng.choice(["guarded", "guarded", "guarded", "nested", "multiassign", "multiassign", "discrete", "mixed", "symbolic", "counter", "delay"])
         prog, feats, meta = G.generate(cs, profile)
         params, inits = G.instantiate_params(rng, meta, prog)
         cfg = {"type_fp_iterations": rng.choice([1, 2, 3, 100, 100, 100])}
